@@ -758,6 +758,36 @@ module Ly = struct
     done with End_of_file -> ())
 end
 
+
+(* ---------------- dispatcher trace validation (C08/C06) ---------------- *)
+module Dp = struct
+  open Dispatcher
+  let event_of tok =
+    match Stdlib.List.map int_of_string (String.split_on_char ':' tok) with
+    | [p; t; q; v] ->
+        let n = nat_of_int in
+        (match p with
+         | 20 -> Some (ESubmit (n q)) | 1 -> Some (EWTop (n t)) | 2 -> Some (EWWaitEnter (n t, n v)) | 3 -> Some (EWWaitExit (n t))
+         | 4 -> Some (EWPop (n t, n q)) | 5 -> Some (EWEnd (n t, n q)) | 6 -> Some (EWExit (n t)) | 7 -> Some (EWDone (n t))
+         | 9 -> Some (EHEnter (n q)) | 10 -> Some (EHEmpty (n q)) | 11 -> Some (EHBusy (n q)) | 12 -> Some (EHPop (n q)) | 13 -> Some (EHEnd (n q))
+         | 15 | 17 -> Some (EBarrierPass (n q)) | 21 -> Some ETerminate | 22 -> Some EClear | 23 -> Some EJoined
+         | _ -> None)
+    | _ -> None
+  let run () =
+    let st = ref (d_init O O) in
+    (try while true do
+      let l = input_line stdin in
+      match split_ws l with
+      | ["init"; w; sq] -> st := d_init (nat_of_int (int_of_string w)) (nat_of_int (int_of_string sq))
+      | "T" :: toks ->
+          let evs = Stdlib.List.filter_map event_of toks in
+          (match first_reject false !st evs O with
+           | None -> print_endline "ACCEPT"
+           | Some i -> Printf.printf "REJECT %d %s\n" (int_of_nat i) (Stdlib.List.nth toks (int_of_nat i)))
+      | _ -> ()
+    done with End_of_file -> ())
+end
+
 let run_lines f =
   try
     while true do
@@ -776,6 +806,7 @@ let () =
   | _ :: "worlds" :: _ -> Wd.run ()
   | _ :: "systems" :: _ -> Sy.run ()
   | _ :: "layout" :: _ -> Ly.run ()
+  | _ :: "disptrace" :: _ -> Dp.run ()
   | _ :: "events" :: _ -> Ed.run false
   | _ :: "eventspec" :: _ -> Ed.run true
   | _ -> prerr_endline "usage: runner <domain>"; exit 2
